@@ -308,7 +308,12 @@ fn op_so_ser(session: &mut Session, cmd: &J) -> Result<J, String> {
 	let pres = P::from_json(&cmd["pres"])?;
 	let mut config = SerializerConfig::new(&schema.schema);
 	let via_writer = cmd.get("via_writer").and_then(|b| b.as_bool()).unwrap_or(false);
-	let r = if via_writer {
+	let r = if let Some(sched) = cmd.get("sink") {
+		// a sink that accepts what its schedule says (partial writes, interruptions): the bytes it got are what was written
+		let mut sink = crate::io_util::ScheduledSink::new(crate::container::sink_steps(sched)?, cmd.get("repeat_last").and_then(|b| b.as_bool()).unwrap_or(false));
+		let r = serde_avro_fast::to_single_object(&pres, &mut sink, &mut config).map(|_| ());
+		r.map(|_| sink.got)
+	} else if via_writer {
 		serde_avro_fast::to_single_object(&pres, Vec::new(), &mut config)
 	} else {
 		serde_avro_fast::to_single_object_vec(&pres, &mut config)
